@@ -6,6 +6,7 @@
 package main
 
 import (
+	"bytes"
 	"encoding/hex"
 	"encoding/json"
 	"flag"
@@ -39,8 +40,18 @@ func o1(v uint64) reftx.Out { return reftx.Out{Value: v, Script: []byte{0x51}} }
 
 const prefixLen = 104
 
-func buildPrefix() *chainx.Prefix {
+func buildPrefix(bulk bool) *chainx.Prefix {
 	return chainx.BuildPrefix("c07", params, prefixLen, func(h uint32, s *minichain.Spec, p *chainx.Prefix) {
+		if h == 103 && bulk {
+			// 44 outputs of 3000 bytes: the snapshot no longer fits one 64 KiB chunk, so a paced save() has a
+			// waiting point at which the next block can abort it
+			var outs []reftx.Out
+			for i := 0; i < 44; i++ {
+				outs = append(outs, reftx.Out{Value: 1e8, Script: bytes.Repeat([]byte{0x51}, 3000)})
+			}
+			outs = append(outs, o1(6e8))
+			s.Txs = append(s.Txs, minichain.Spend([]OP{p.Cb[2]}, outs))
+		}
 		if h == 102 {
 			m := minichain.Spend([]OP{p.Cb[1]}, []reftx.Out{o1(10e8), o1(10e8), o1(10e8), o1(10e8), o1(10e8)})
 			s.Txs = append(s.Txs, m)
@@ -55,6 +66,7 @@ type workload struct {
 	maxfile uint64 // BlockDBOpts.MaxDataFileSize (0 = one data file): every block in its own data file when small
 	keep    uint32 // BlockDBOpts.DataFilesKeep (0 = keep all data files)
 	name    string
+	paced   bool // recorded with the default 5-minute pacing of snapshot writing on a prefix with bulky outputs: saves wait between chunks and can be aborted
 	blocks  func(p *chainx.Prefix) (names []string, blocks []*reftx.Block)
 	events  []string // block name | "idle" (Idle + wait for the snapshot) | "idle-nowait" | "close"
 }
@@ -137,6 +149,15 @@ func workloads() []workload {
 			blocks: func(p *chainx.Prefix) ([]string, []*reftx.Block) {
 				return mk(p, [4]string{"A1", "P", "1", "M0"}, [4]string{"A2x", "A1", "1", "M0"}, [4]string{"B2", "A1", "2", "M1"}, [4]string{"B3", "B2", "2", ""})
 			}},
+		// a snapshot that is really aborted by the next block (the others run in hurry mode, where a save of a
+		// small set completes at once): S1 complete, S2 aborted by A3, S3 aborted by A4, S4 complete; with one
+		// block per data file and keep=1 a replay from genesis is impossible, a snapshot must survive
+		{name: "W10-paced-snapshots-aborted-by-next-block-keep-1", paced: true, maxfile: 600, keep: 1,
+			events: []string{"A1", "idle-hurry", "A2", "idle-paced", "A3", "idle-paced", "A4", "idle-hurry", "A5", "close"},
+			blocks: func(p *chainx.Prefix) ([]string, []*reftx.Block) {
+				return mk(p, [4]string{"A1", "P", "1", "M0"}, [4]string{"A2", "A1", "1", "M1"}, [4]string{"A3", "A2", "1", "M2"},
+					[4]string{"A4", "A3", "1", "M3"}, [4]string{"A5", "A4", "1", ""})
+			}},
 		{name: "W5-side-branch-during-snapshot", events: []string{"A1", "A2", "idle-nowait", "B1", "idle", "A3", "close"},
 			blocks: func(p *chainx.Prefix) ([]string, []*reftx.Block) {
 				return mk(p, [4]string{"A1", "P", "1", "M0"}, [4]string{"A2", "A1", "1", "M1"}, [4]string{"B1", "P", "2", "M2"}, [4]string{"A3", "A2", "1", ""})
@@ -208,6 +229,24 @@ func waitSnapshot(ch *chain.Chain, dir string) {
 		time.Sleep(time.Millisecond)
 	}
 	ev.HarnessError("snapshot did not finish within 60 s")
+}
+
+// waitPaced waits until the paced save has written its first chunk and sits in its pacing wait.
+func waitPaced(ch *chain.Chain, dir string) {
+	for i := 0; i < 20000; i++ {
+		tmp, _ := filepath.Glob(dir + "/*.db.tmp")
+		if len(tmp) == 1 {
+			if st, err := os.Stat(tmp[0]); err == nil && st.Size() > 0 {
+				time.Sleep(20 * time.Millisecond)
+				if !ch.Unspent.WritingInProgress.Get() {
+					panic("paced snapshot finished instead of waiting (set too small for pacing?)")
+				}
+				return
+			}
+		}
+		time.Sleep(time.Millisecond)
+	}
+	panic("paced snapshot did not start writing within 20 s")
 }
 
 // ---------- recovery driver (fresh process) ----------
@@ -405,8 +444,14 @@ func main() {
 	r := ev.Start("C07", "fault_enumeration")
 	minichain.Quiet()
 	utxo.UTXO_WRITING_TIME_TARGET = 0
-	p := buildPrefix()
-	defer p.Remove()
+	pPlain := buildPrefix(false)
+	defer pPlain.Remove()
+	var pBulk *chainx.Prefix
+	defer func() {
+		if pBulk != nil {
+			pBulk.Remove()
+		}
+	}()
 	scratch := ev.Scratch("c07")
 	defer os.RemoveAll(scratch)
 
@@ -419,6 +464,15 @@ func main() {
 	for _, w := range wls {
 		if only := os.Getenv("C07_ONLY"); only != "" && !strings.Contains(w.name, only) {
 			continue
+		}
+		p := pPlain
+		utxo.UTXO_WRITING_TIME_TARGET = 0
+		if w.paced {
+			if pBulk == nil {
+				pBulk = buildPrefix(true)
+			}
+			p = pBulk
+			utxo.UTXO_WRITING_TIME_TARGET = 5 * time.Minute
 		}
 		names, blocks := w.blocks(p)
 		byName := map[string]*reftx.Block{}
@@ -442,32 +496,55 @@ func main() {
 		o.BlockDBOpts.DataFilesKeep = w.keep
 		e := minichain.Open(dir, o)
 		model := p.Model.Clone()
-		for _, evn := range w.events {
-			switch evn {
-			case "idle":
-				e.Ch.Idle()
-				waitSnapshot(e.Ch, dir)
-			case "idle-nowait":
-				e.Ch.Idle()
-			case "flush":
-				e.Ch.Blocks.Idle() // queued blocks to disk, no UTXO snapshot
-			case "close":
-				e.Close()
-			default:
-				rec.Marker("BEGIN " + evn)
-				res := deliverClient(e.Ch, byName[evn].Bytes())
-				if strings.HasSuffix(evn, "x") {
-					if res == "ok" {
-						ev.HarnessError("workload %s: block %s is meant to fail when it is connected", w.name, evn)
-					}
-				} else if res != "ok" {
-					ev.HarnessError("workload %s: block %s: %s", w.name, evn, res)
+		// the uninterrupted run itself: a panic of the code under test or an answer that differs from
+		// the construction of the workload is a verdict about the tree, not a harness error
+		recFail, recWhat := func() (key, what string) {
+			defer func() {
+				if x := recover(); x != nil {
+					key, what = "uninterrupted-run-panics", fmt.Sprintf("workload %s: the run without any crash panics: %v", w.name, x)
 				}
-				model.Add(byName[evn])
-				rec.Marker("ACK " + evn)
+			}()
+			for _, evn := range w.events {
+				switch evn {
+				case "idle":
+					e.Ch.Idle()
+					waitSnapshot(e.Ch, dir)
+				case "idle-nowait":
+					e.Ch.Idle()
+				case "idle-hurry":
+					e.Ch.Idle()
+					e.Ch.Unspent.HurryUp()
+					waitSnapshot(e.Ch, dir)
+				case "idle-paced":
+					e.Ch.Idle()
+					waitPaced(e.Ch, dir)
+				case "flush":
+					e.Ch.Blocks.Idle() // queued blocks to disk, no UTXO snapshot
+				case "close":
+					e.Close()
+				default:
+					rec.Marker("BEGIN " + evn)
+					res := deliverClient(e.Ch, byName[evn].Bytes())
+					if strings.HasSuffix(evn, "x") {
+						if res == "ok" {
+							return "uninterrupted-run-differs-from-reference", fmt.Sprintf("workload %s: block %s is invalid when it is connected, the node answers ok", w.name, evn)
+						}
+					} else if res != "ok" {
+						return "uninterrupted-run-differs-from-reference", fmt.Sprintf("workload %s: valid block %s: %s", w.name, evn, res)
+					}
+					model.Add(byName[evn])
+					rec.Marker("ACK " + evn)
+				}
 			}
-		}
+			return "", ""
+		}()
 		rec.Stop()
+		utxo.UTXO_WRITING_TIME_TARGET = 0
+		if recFail != "" {
+			r.Report(w.name+"/"+recFail, recWhat, crashCase{Workload: w.name, Variant: "no-crash"})
+			perW[w.name] = map[string]interface{}{"skipped": recFail}
+			continue
+		}
 		log, err := crashfs.Relativize(crashfs.Convert(rec.Effects()), dir)
 		if err != nil {
 			ev.HarnessError("relativize: %v", err)
